@@ -156,7 +156,4 @@ def binding_demo(work, trace_path):
 
 
 def replay(path):
-    with open(path) as fp:
-        d = json.load(fp)
-    print(json.dumps(d, indent=1)[:4000])
-    return 0
+    return fcdrive.replay_file(path)
